@@ -74,6 +74,8 @@ func renderTerm(t any) string {
 		return "seq.Delay[int](" + termThunk(m["f"], false) + ")"
 	case "comb":
 		return "seq.Combine[int](" + renderTerm(m["a"]) + ", " + renderTerm(m["b"]) + ")"
+	case "brk":
+		return "seq.Breakable[int](" + renderTerm(m["body"]) + ")"
 	case "for":
 		c, p := "nil", "nil"
 		if !isNone(m["c"]) {
